@@ -180,7 +180,7 @@ a(r'PendingProcessorStats::(inc_processed_threads|add_walked_frame)\|assert:over
 a(r'MinidumpInfo::<\'a>::check_for_guard_pages\|assert:overflow:Sub\|range\.end range\.start', 'range is a range_map::Range built by Range::new(start, end) with start <= end')
 a(r'MinidumpInfo::<\'a>::check_for_guard_pages::\{closure#0\}\|assert:overflow:Add', 'FIND: range.end + 1 for a region ending at u64::MAX')
 a(r'into_process_state::\{closure#0\}\|call:time_arith:add', 'UNIX_EPOCH + Duration::from_secs(u32 as u64): at most 2^32 seconds, far inside SystemTime\'s range on 64-bit platforms')
-a(r'into_process_state::\{closure#0\}::\{closure#3\}::\{closure#0\}\|assert:overflow:Sub\|frame\.instruction unloaded\.raw\.base_of_image', 'unloaded comes from modules_at_address(frame.instruction), which filters with range.contains', 'C08.5')
+a(r'into_process_state::\{closure#0\}::\{closure#\d+\}::\{closure#0\}\|assert:overflow:Sub\|frame\.instruction unloaded\.raw\.base_of_image', 'unloaded comes from modules_at_address(frame.instruction), which filters with range.contains', 'C08.5')
 a(r'processor::bitflip::try_bit_flips\|assert:overflow:Shl\|1 i', 'i ranges over bit_range.range(), one of the constant ranges 0..64, 0..48, 48..64', 'C19.1')
 
 # ---------------------------------------------------------------- minidump_stackwalk
